@@ -46,7 +46,8 @@ class L1NormViewAsReal(ElementaryProximableFunctional):
         elif diff.is_complex():
             value = (self.weight * diff.real).abs() + (self.weight * diff.imag).abs()
         else:
-            value = (self.weight * diff).abs()
+            # real data: only the real part of a complex weight acts (as in prox)
+            value = (self.weight.real * diff).abs()
 
         if self.divide_by_n:
             return (torch.mean(value, dim=self.dim, keepdim=self.keepdim),)
